@@ -271,7 +271,8 @@ func ruleDeletionFollowsCatalog(c *Ctx) {
 	for _, site := range s.sites(callPred(s, "os.RemoveAll", "os.Remove")) {
 		n++
 		call := site.(*ast.CallExpr)
-		ok := fieldKey(s.Info, call.Args[0]) == "catalog.Directory.pathToItemName" && rootIdent(s.Info, call.Args[0]) != nil && isParam(s, rootIdent(s.Info, call.Args[0]))
+		arg := resolveLocal(s.Info, s.Body, call.Args[0])
+		ok := fieldKey(s.Info, arg) == "catalog.Directory.pathToItemName" && rootIdent(s.Info, arg) != nil && isParam(s, rootIdent(s.Info, arg))
 		c.Check(ok, rule, s.Name, "removes-catalog-node-path", c.P.Pos(call.Pos()), "the removed path is the pathToItemName of the *Directory node handed in, not a string built from request data")
 	}
 	c.Floor(rule, s.Name, "removal sites", n, 1)
@@ -289,7 +290,7 @@ func ruleDeletionFollowsCatalog(c *Ctx) {
 		for _, site := range rt.sites(callPred(rt, "catalog.removeDirFiles")) {
 			cnt++
 			call := site.(*ast.CallExpr)
-			ix, ok := unparen(call.Args[0]).(*ast.IndexExpr)
+			ix, ok := resolveLocal(rt.Info, rt.Body, call.Args[0]).(*ast.IndexExpr)
 			if !ok {
 				okAll = false
 				continue
@@ -308,7 +309,7 @@ func ruleDeletionFollowsCatalog(c *Ctx) {
 					continue
 				}
 				stores++
-				call, ok := unparen(as.Rhs[i]).(*ast.CallExpr)
+				call, ok := resolveLocal(rt.Info, rt.Body, as.Rhs[i]).(*ast.CallExpr)
 				if !ok || CalleeName(rt.Info, call) != "(*catalog.Directory).GetSubDirWithItemName" {
 					okAll = false
 				}
